@@ -17,6 +17,19 @@ CLAIMS = {
  "C17": ("proof", "5 C17", "Exit protocol: allocate.c wrappers report a failed request once through the installed handler; yaep's handler never returns; every allocation site inside functions under contract carries the exit assertion; "
          "the unwinding branches of yaep_create_grammar and yaep_parse are verified from any state satisfying it.",
          "Allocation sites inside build_pl/make_parse/error_recovery are not under contract (their unwinding branch is)."),
+ "C10": ("proof", "5 C10 / 9", "First region of yaep_read_grammar (cut out mechanically on every run, rule R5) under contract with the terminal loop closed by an invariant: the object is switched to, emptied and marked "
+         "undefined before the first callback; every error exit of the region leaves it undefined and its code names a defect that was really delivered (witness conditions); no defect is missed on the normal path. "
+         "Rule intake, nullable/productive/reachable flags and the loop check are not under contract yet (listed as unverified).",
+         "Only the terminal-intake region is covered; symbol-table lookups answer 'found' iff added before (assumed, C19)."),
+ "C11": ("proof", "5 C11 / 9", "The hand-written lexer under contract with all five loops closed (cursor never passes the terminating NUL, token kinds by first character, number and line arithmetic), "
+         "yaep_parse_grammar's protocol (object switched to first, failure code returned, intermediate form released once, otherwise exactly yaep_read_grammar's result), the replay callbacks. "
+         "Code assignment (tail of set_sgrammar) is a bounded set.", "The bison automaton and its actions are not covered; token text accumulation is a stated drop in the lexer set."),
+ "C13": ("proof", "5 C13 / 9", "Tree-node constructors under contract: place_translation and copy_anode request blocks of exactly the node size (+ child slots) from parse_alloc and write only them; "
+         "storage-layer copies of names. yaep_free_tree and the pruning release loop are bounded/native only.",
+         "Pairing of parse_alloc/parse_free over a whole yaep_parse is a fact about make_parse and is not covered."),
+ "C04": ("proof", "5 C04 / 9", "prune_to_minimal base cases full-domain (leaf costs 0; an already processed shared node reports its recorded total), copy_anode copies the cost, "
+         "traverse_pruned_translation restores a shared node once (bounded), static fact that make_parse restores the one-parse flag unconditionally.",
+         "The recursive cases of prune_to_minimal (sum over children, minimum over alternatives) exceed CBMC's reach in this sandbox (out of memory at 16 GB for one level with two children); composition over the DAG is a paper induction."),
  "C12": ("proof", "5 C12", "All built-in CBMC safety classes (bounds, pointer, signed overflow, division, conversions) of every function placed under contract for any property, plus the targeted anchors: "
          "message buffer (faithful yaep_error), code translation vector, parser-list size, description lexer.",
          "Only the functions listed in the evidence are covered; the Earley core, tree builder and bison automaton are named as unverified."),
@@ -28,6 +41,9 @@ NA = {
  "C05": "the flag means 'two derivations exist' and is set inside make_parse's candidate loop; only the reset clause is provable and is carried by API.parse (C15)",
  "C07": "termination of recovery plus an existential over repairs of the input; no per-call contract",
  "C08": "minimality over all simple recoveries: universal over alternative runs of the parser; no per-call contract",
+ "C06": "only the argument-consistency clauses of build_pl would be provable, and only against an assumed contract of error_recovery; 'first token no sentence continues with' is a C01-class statement; not built",
+ "C09": "equality of results across lookahead levels is a C01-class statement; the provable part (clamping) is carried by C15's API.set.set_lookahead; debug-level frame facts not built",
+ "C16": "CBMC's C++ front end rejects yaep.cpp/objstack.h (class os) and contract syntax; forwarding methods and container twins not built",
  "C18": "growth rate of total work over input length for a grammar class; a contract bounds one call",
 }
 def main():
